@@ -130,7 +130,7 @@ func writeDeclarations(w *formatting.IndentedWriter, ns *dsl.Namespace) {
 			w.WriteString("static std::string SchemaFromVersion(Version version);\n\n")
 
 			w.WriteStringln("private:")
-			w.WriteString("uint8_t state_ = 0;\n\n")
+			w.WriteString("uint32_t state_ = 0;\n\n")
 
 			fmt.Fprintf(w, "friend class %s;\n", common.AbstractReaderName(p))
 		})
@@ -193,7 +193,7 @@ func writeDeclarations(w *formatting.IndentedWriter, ns *dsl.Namespace) {
 			w.WriteString("bool skip_completed_check_;\n\n")
 
 			w.WriteStringln("private:")
-			w.WriteStringln("uint8_t state_ = 0;")
+			w.WriteStringln("uint32_t state_ = 0;")
 		})
 		fmt.Fprint(w, "};\n")
 	})
@@ -463,7 +463,7 @@ func writeReaderStateCheckIfStatement(w *formatting.IndentedWriter, protocol *ds
 }
 
 func writeInvalidWriterStateMethod(w *formatting.IndentedWriter, p *dsl.ProtocolDefinition) {
-	fmt.Fprintf(w, "void %s(uint8_t attempted, [[maybe_unused]] bool end, uint8_t current) {\n", invalidWriterStateMethodName(p))
+	fmt.Fprintf(w, "void %s(uint32_t attempted, [[maybe_unused]] bool end, uint32_t current) {\n", invalidWriterStateMethodName(p))
 	w.Indented(func() {
 		w.WriteStringln("std::string expected_method;")
 		w.WriteStringln("switch (current) {")
@@ -495,9 +495,9 @@ func writeInvalidWriterStateMethod(w *formatting.IndentedWriter, p *dsl.Protocol
 }
 
 func writeInvalidReaderStateMethod(w *formatting.IndentedWriter, p *dsl.ProtocolDefinition) {
-	fmt.Fprintf(w, "void %s(uint8_t attempted, uint8_t current) {\n", invalidReaderStateMethodName(p))
+	fmt.Fprintf(w, "void %s(uint32_t attempted, uint32_t current) {\n", invalidReaderStateMethodName(p))
 	w.Indented(func() {
-		w.WriteString("auto f = [](uint8_t i) -> std::string {\n")
+		w.WriteString("auto f = [](uint32_t i) -> std::string {\n")
 		w.Indented(func() {
 			w.WriteStringln("switch (i/2) {")
 			for i, step := range p.Sequence {
